@@ -33,20 +33,24 @@ func (h *Sources) Save() {
 		return
 	}
 
+	// When we add an item to the undo history, the states that have been
+	// undone are dropped: the history is cut after the state we are on.
+	// This must be done before looking at the most recent state below:
+	// while undoing, the most recent one is not the one we are on.
+	if line.pos > len(line.items) {
+		line.pos = len(line.items)
+	}
+
+	if line.pos > 0 {
+		line.items = line.items[:len(line.items)-line.pos+1]
+	}
+
 	// When the line is identical to the previous undo, we just update
 	// the cursor position if it's a different one.
 	if len(line.items) > 0 && line.items[len(line.items)-1].line == string(*h.line) {
 		line.items[len(line.items)-1].pos = h.cursor.Pos()
 		return
 	}
-
-	// When we add an item to the undo history, the history
-	// is cut from the current undo hist position onwards.
-	if line.pos > len(line.items) {
-		line.pos = len(line.items)
-	}
-
-	line.items = line.items[:len(line.items)-line.pos]
 
 	// Make a copy of the cursor and ensure its position.
 	cur := core.NewCursor(h.line)
